@@ -308,6 +308,15 @@ func (h *handler1) handleClientPublish(ctx context.Context, snPublish *snPkts1.P
 func (h *handler1) handleBrokerPublish(ctx context.Context, mqPublish *mqPkts.PublishPacket) error {
 	msgID := mqPublish.MessageID
 
+	// The message (and the REGISTER for its topic) must fit into an MQTT-SN
+	// packet. MQTT messages can be much longer.
+	if len(mqPublish.Payload) > snPkts1.MaxPayloadLength ||
+		len(mqPublish.TopicName) > snPkts1.MaxPayloadLength {
+		h.log.Error("MQTT message too long for MQTT-SN, dropped: topic %d B, payload %d B",
+			len(mqPublish.TopicName), len(mqPublish.Payload))
+		return nil
+	}
+
 	// Get TopicID
 	var needsRegister bool
 	var topicID uint16
